@@ -209,7 +209,12 @@ func (e *TOCEntry) addChild(baseName string, child *TOCEntry) {
 		e.children = make(map[string]*TOCEntry)
 	}
 	if child.Type == "dir" {
-		e.NumLink++ // Entry ".." in the subdirectory links to this directory
+		// Entry ".." in the subdirectory links to this directory. A directory that
+		// has several entries in the TOC (the last one wins) is still one
+		// subdirectory: don't count it once per entry.
+		if old, ok := e.children[baseName]; !ok || old.Type != "dir" {
+			e.NumLink++
+		}
 	}
 	e.children[baseName] = child
 }
